@@ -421,19 +421,20 @@ Ctl0 == [phase |-> "rec", nrec |-> 0, recs |-> Z3, nfail |-> 0, ncrash |-> 0, ne
          check |-> 0, final |-> 0, k1 |-> 0, concl |-> Z3, f1 |-> Z3, snap |-> [p \in Pods |-> [lab |-> Z2, cap |-> 0, evar |-> 0, rf |-> 0]], exc |-> [p \in Pods |-> {}], noopviol |-> 0, evgroups |-> {}, evpend |-> {}]
 
 IsWrite(lab) == lab.n = "call" /\ lab.verb \in {"create", "patch", "delete", "update"} /\ lab.kind \notin {"BindRequestStatus", "PodStatus"}
-ExcOf(lab) == IF lab.n = "call" /\ lab.res = "fail"
-              THEN (IF lab.verb = "patch" /\ lab.kind = "Pod" /\ lab.pt = "json" THEN {"lab"}
-                    ELSE IF lab.verb = "delete" /\ lab.kind = "ConfigMap" THEN {"cm"}
-                    ELSE IF lab.verb = "patch" /\ lab.kind = "BindRequestStatus" THEN {"st"}
-                    ELSE {})
-              ELSE {}
+\* a cleanup call (named by the program counter the model is at) that was itself failed by injection
+ExcOf(l, lab) == IF lab.n = "call" /\ lab.res = "fail"
+                 THEN (IF l.pc = "RB_rmlab" THEN {"lab"}
+                       ELSE IF l.pc \in {"RB_delcap", "RB_delevar"} THEN {"cm"}
+                       ELSE IF l.pc = "ST_patch" THEN {"st"}
+                       ELSE {})
+                 ELSE {}
 \* bookkeeping common to the model and the trace (c = ctl, l = local state of the actor before the step)
 ObserveCall(c, l, lab) ==
   LET p == l.p
       c1 == [c EXCEPT !.check = 0, !.final = 0, !.evgroups = {},
                       !.noopviol = IF l.t = "rec" /\ l.noop = 1 /\ IsWrite(lab) /\ lab.res # "fail" THEN 1 ELSE c.noopviol]
       c2 == IF l.t = "rec" /\ p \in Pods
-            THEN [c1 EXCEPT !.exc[p] = c1.exc[p] \cup ExcOf(lab),
+            THEN [c1 EXCEPT !.exc[p] = c1.exc[p] \cup ExcOf(l, lab),
                             !.f1[p] = IF lab.n = "call" /\ lab.k = 1 /\ lab.res = "fail" THEN 1 ELSE c1.f1[p]]
             ELSE c1
   IN IF lab.res = "crash" THEN [c2 EXCEPT !.evpend = {}] ELSE c2
